@@ -429,6 +429,29 @@ type ArgsCase struct {
 	Keys  []string       `json:"keys,omitempty"`
 	Prior []string       `json:"prior,omitempty"` // JSON of the values the targets hold before decoding
 	Input string         `json:"input"`
+	// Special (marshal): a slot holding a value of a kind with encoding rules of
+	// its own: rawnil rawempty rawtext ptrnil marshaler
+	Special []string `json:"special,omitempty"`
+}
+
+type selfMarshaler struct{ s string }
+
+func (m selfMarshaler) MarshalJSON() ([]byte, error) { return json.Marshal("<" + m.s + ">") }
+
+func specialValue(kind string) (any, bool) {
+	switch kind {
+	case "rawnil":
+		return json.RawMessage(nil), true
+	case "rawempty":
+		return json.RawMessage{}, true
+	case "rawtext":
+		return json.RawMessage(` {"a": [1, 2]} `), true
+	case "ptrnil":
+		return (*int)(nil), true
+	case "marshaler":
+		return selfMarshaler{"m"}, true
+	}
+	return nil, false
 }
 
 func runArgs(_ *testing.T, c ArgsCase) (v engine.Verdict) {
@@ -452,13 +475,22 @@ func runArgs(_ *testing.T, c ArgsCase) (v engine.Verdict) {
 	case "marshal":
 		a := make(handler.Args, n)
 		for i := range a {
-			if i < len(c.Nil) && c.Nil[i] {
+			if sv, ok := specialValue(at(c.Special, i)); ok {
+				a[i] = sv
+			} else if i < len(c.Nil) && c.Nil[i] {
 				a[i] = nil
 			} else {
 				a[i] = targets[i].Elem().Interface()
 			}
 		}
 		got, err := json.Marshal(a)
+		if _, rerr := json.Marshal([]any(a)); rerr != nil {
+			// a slot that encoding/json itself cannot encode (an empty RawMessage)
+			if err == nil {
+				return engine.Failf("C16/args-marshal", "Args with a slot that cannot be encoded (%v) marshalled to %s", rerr, got)
+			}
+			return engine.Verdict{NonTrivial: true, Labels: []string{"marshal", "marshal:unencodable-slot"}}
+		}
 		if err != nil {
 			return engine.Failf("C16/args-marshal", "Args.MarshalJSON failed: %v", err)
 		}
@@ -608,6 +640,13 @@ func deepCopy(v any) any {
 	return v
 }
 
+func at(xs []string, i int) string {
+	if i < len(xs) {
+		return xs[i]
+	}
+	return ""
+}
+
 func genArgs(t *rapid.T) ArgsCase {
 	c := ArgsCase{Kind: rapid.SampledFrom([]string{"args", "args", "obj", "obj", "marshal"}).Draw(t, "kind")}
 	n := rapid.IntRange(0, 6).Draw(t, "n")
@@ -621,6 +660,9 @@ func genArgs(t *rapid.T) ArgsCase {
 		c.Types = append(c.Types, td)
 		c.Nil = append(c.Nil, c.Kind != "obj" && rapid.IntRange(0, 4).Draw(t, "nilslot") == 0)
 		c.Keys = append(c.Keys, keys[i])
+		if c.Kind == "marshal" {
+			c.Special = append(c.Special, rapid.SampledFrom([]string{"", "", "", "rawnil", "rawempty", "rawtext", "ptrnil", "marshaler"}).Draw(t, "special"))
+		}
 		c.Prior = append(c.Prior, c15.GenJSON(t, td))
 		elems = append(elems, c15.GenJSON(t, td))
 	}
